@@ -9,7 +9,8 @@ inside them.
 * `asynchronous f` (haiway/helpers/asynchrony.py `_ExecutorWrapper.__call__` / `__method_call__`):
   `copy_context()` at the call, `run_in_executor(executor, context.run, partial(f, *args, **kwargs))`:
   `f` runs in *another activity* on a **copy** of the caller's context; the copy is discarded; the heap
-  (metrics scopes are shared objects) keeps what `f` recorded.
+  (metrics scopes are shared objects) keeps what `f` recorded.  The outcome travels through a
+  `concurrent.futures.Future` copied into an asyncio future: `convertFutureExc`.
 * `wrap_async f`: a coroutine function calling `f(*args, **kwargs)` directly – in the caller's own context.
 * `traced f` (haiway/helpers/tracing.py, `__debug__`): `with ctx.scope(f.__name__)`: a new metrics scope named
   after the function under the caller's, `ArgumentsTrace` recorded, `f` called inside, `ResultTrace` (value or
@@ -25,10 +26,37 @@ structure Ctx where
   other : Nat := 0               -- every other context variable (opaque)
 deriving DecidableEq, Repr
 
+/-- an exception: its class and the identity of the object (`obj = 0`: an object created by the machinery,
+not the one the function raised) -/
+structure Exc where
+  cls : Nat
+  obj : Nat
+deriving DecidableEq, Repr
+
 inductive Outcome where
   | ret (v : Nat)
-  | raise (e : Nat)
+  | raise (e : Exc)
 deriving DecidableEq, Repr
+
+/-! exception classes the event loop treats specially (all others are opaque): -/
+def cfCancelled : Nat := 2      -- concurrent.futures.CancelledError
+def aioCancelled : Nat := 3     -- asyncio.CancelledError
+def timeoutError : Nat := 4     -- TimeoutError (= concurrent.futures.TimeoutError = asyncio.TimeoutError)
+def cfInvalidState : Nat := 5   -- concurrent.futures.InvalidStateError
+def aioInvalidState : Nat := 6  -- asyncio.InvalidStateError
+
+/-- `asyncio.futures._convert_future_exc`, applied when the executor's `concurrent.futures.Future` is copied into
+the loop's future (`run_in_executor` → `wrap_future`): three classes are **re-created** (`Cls(*exc.args)`) as
+their asyncio counterparts; every other exception object is passed on as it is -/
+def convertFutureExc (e : Exc) : Exc :=
+  if e.cls = cfCancelled then { cls := aioCancelled, obj := 0 }
+  else if e.cls = timeoutError then { cls := timeoutError, obj := 0 }
+  else if e.cls = cfInvalidState then { cls := aioInvalidState, obj := 0 }
+  else e
+
+def convertOutcome : Outcome → Outcome
+  | .ret v => .ret v
+  | .raise e => .raise (convertFutureExc e)
 
 inductive Rec where
   | args (a : Nat)               -- ArgumentsTrace
@@ -76,7 +104,7 @@ def callPlain (f : Fn) (a : Nat) (c : Ctx) (w : World) : Outcome × Ctx × World
 
 /-- `await asynchronous(f)(*args)`: `f` gets a copy of `c`; the caller keeps `c` -/
 def callAsynchronous (f : Fn) (a : Nat) (c : Ctx) (w : World) : Outcome × Ctx × World :=
-  ((f.run a c w).1, c, (f.run a c w).2.2)
+  (convertOutcome (f.run a c w).1, c, (f.run a c w).2.2)
 
 /-- `await wrap_async(f)(*args)` -/
 def callWrapAsync (f : Fn) (a : Nat) (c : Ctx) (w : World) : Outcome × Ctx × World := f.run a c w
